@@ -422,6 +422,10 @@ def run(chk):
                                                       image_bytes=len(e[1]["image"]), datagrams=len(e[1]["dg"]),
                                                       result=e[1]["result"]) for e in t["ev"] if e[0] == "boot"]))
     chk.validate("BootTrace", "BootTrace.cfg", traces, key_of=key_of, batch=400)
+
+    # beyond the property: BMPController sessions (power, LEDs, FPGA registers, ADC, version) against Bmp.tla
+    from . import bmp
+    bmp.run_beyond(chk)
     # report the shortest rejected history of each key first (finish() keeps the first one per key)
     def size(v):
         tr = v.get("replay", {}).get("trace")
